@@ -38,7 +38,7 @@ const SNIPPETS: &[&str] = &[
 
 fn strat() -> impl Strategy<Value = Case> {
     let corpus = vplsrc::corpus_vpl();
-    (any::<u16>(), any::<u16>(), proptest::collection::vec(any::<u16>(), 0..160), 0usize..7, proptest::collection::vec(any::<u16>(), 0..48)).prop_map(move |(sel, which, gtape, nm, mtape)| {
+    (any::<u16>(), any::<u16>(), proptest::collection::vec(any::<u16>(), 0..160), 0usize..7, proptest::collection::vec(any::<u16>(), 16..128)).prop_map(move |(sel, which, gtape, nm, mtape)| {
         let mut t = Tape::new(&gtape);
         let (mut origin, base) = match vh_common::idx::pick(sel, 10) {
             0..=4 if !corpus.is_empty() => {
@@ -126,6 +126,11 @@ fn max_bracket_depth(src: &str) -> usize {
 
 fn judge(c: &Case) -> Outcome {
     let src = &c.src;
+    if vplsrc::index_nest_depth(src) > vplsrc::MAX_INDEX_NEST + 1 && max_bracket_depth(src) <= 26 {
+        // exponential (2^depth) zone of nested index brackets below the parser's nesting cap:
+        // bounded, but a single parse takes seconds to minutes; documented in `nesting_profile`
+        return Outcome::discard("excluded:index_nesting>16_below_cap");
+    }
     let t0 = std::time::Instant::now();
     let res = match guard(|| varpulis_parser::parse(src)) {
         Ok(r) => r,
@@ -133,6 +138,9 @@ fn judge(c: &Case) -> Outcome {
     };
     let ms = t0.elapsed().as_millis();
     let depth = max_bracket_depth(src);
+    if ms >= 1000 && std::env::var("VERIF_C41_DUMP_SLOW").is_ok() {
+        eprintln!("SLOW {} ms: {}", ms, serde_json::to_string(c).unwrap_or_default());
+    }
     let mut out = match &res {
         Ok(_) => Outcome::pass().class("parsed_ok"),
         Err(e) => {
@@ -167,8 +175,56 @@ fn judge(c: &Case) -> Outcome {
     out
 }
 
+/// Time of `parse` for nested-bracket inputs by style and depth (evidence only, never a verdict):
+/// for each style the depth is raised until one parse takes more than 400 ms.
+fn nesting_profile() -> serde_json::Value {
+    let styles: &[(&str, &str, &str, &str)] = &[
+        ("paren", "(", ")", "let v = "),
+        ("array", "[", "]", "let v = "),
+        ("map", "{a: ", "}", "let v = "),
+        ("call", "f(", ")", "let v = "),
+        ("index", "a[", "]", "let v = "),
+        ("neg_paren", "-(", ")", "let v = "),
+        ("type_array", "[", "]", "type T = "),
+        ("where_index", "a[", "]", "stream S = A.where(x > "),
+    ];
+    let mut out = serde_json::Map::new();
+    for (name, o, c, prefix) in styles {
+        for (variant, closed) in [("balanced", true), ("unclosed", false)] {
+            let mut rows = vec![];
+            for depth in 1..=24usize {
+                let mut s = prefix.to_string();
+                s.push_str(&o.repeat(depth));
+                s.push_str(if *prefix == "type T = " { "int" } else { "1" });
+                if closed {
+                    s.push_str(&c.repeat(depth));
+                } else {
+                    s.push_str(&c.repeat(depth / 2));
+                }
+                if prefix.starts_with("stream") {
+                    s.push(')');
+                }
+                s.push('\n');
+                let t0 = std::time::Instant::now();
+                let r = varpulis_parser::parse(&s);
+                let ms = t0.elapsed().as_secs_f64() * 1000.0;
+                rows.push(serde_json::json!({"depth": depth, "ms": (ms * 10.0).round() / 10.0, "ok": r.is_ok()}));
+                if ms > 400.0 {
+                    break;
+                }
+            }
+            out.insert(format!("{}:{}", name, variant), serde_json::Value::Array(rows));
+        }
+    }
+    serde_json::Value::Object(out)
+}
+
 fn main() {
     let check = Check::new("C41", "exploration");
+    if std::env::var("VERIF_C41_PROFILE").is_ok() {
+        println!("{}", serde_json::to_string_pretty(&nesting_profile()).unwrap());
+        return;
+    }
     let corpus = vplsrc::corpus_vpl();
     check.rule("source texts = 0-6 token-level/byte-level mutations (token delete/dup/swap/replace/insert, bracket unbalancing, nesting runs up to depth 40, indentation and tab changes incl. Unicode spaces, non-ASCII and marker-text insertion, truncation, line splice/dup/delete, CRLF, wrapping lines into `for i in a..b:` declaration loops) of a repository .vpl file (50%), a generated program over the pest grammar (40%) or a small snippet (10%); oracle: parse returns without panic (also inside its own parser thread) and every line/column/offset of the error lies inside the given text; non-trivial = input that fails to parse (distinct by text)");
     check.assume("corpus read from /repo at run time (a generated grammar covers the domain if files move); elapsed time is only a counted class, a hang is caught by the runner's watchdog (inconclusive)");
